@@ -215,10 +215,10 @@ def mpoly_pool3(tier):
     return [[rect_corners(*r)] for r in rects(Tq, Fqq)] + list(right_triangles(Tq, Fqq)) + [first_holed(*lattice(tier))]
 
 
-FAMILIES = ["flat", "line", "mpoint", "ring3", "poly", "mline1", "mline2", "mline3", "mpoly1", "mpoly2", "mpoly3"]
+FAMILIES = ["flat", "line", "mpoint", "ring3", "poly", "mline1", "mline2", "mline3", "mpoly1", "mpoly2", "mpoly3", "regroup"]
 # measured relative cost per geometry (ms on the reference machine); only used to balance the blocks
 WEIGHT = {"flat": 0.8, "line": 0.55, "mpoint": 1.7, "ring3": 0.8, "poly": 0.9, "mline1": 0.85, "mline2": 1.15, "mline3": 1.4,
-          "mpoly1": 1.2, "mpoly2": 1.7, "mpoly3": 2.0}
+          "mpoly1": 1.2, "mpoly2": 1.7, "mpoly3": 2.0, "regroup": 1.5}
 
 
 def family(fam, tier):
@@ -274,6 +274,29 @@ def family(fam, tier):
         pool = mpoly_pool3(tier)
         for a, b, c in itertools.product(pool, repeat=3):
             yield "MultiPolygon", [a, b, c]
+    elif fam == "regroup":
+        # consecutive geometries of one type made of the SAME numbers in the same order, grouped differently: the conversion
+        # must follow the nesting, not the flattened coordinate list (kept in a single block so that they stay consecutive)
+        two = list(forward_lines(T, Fq, 2))
+        k = 0
+        for a in two:
+            for b in two:
+                if a[0][0] < b[-1][0]:  # the concatenation is itself a forward line
+                    k += 1
+                    if k % 7:
+                        continue  # every 7th pair keeps the family small
+                    first, second = [a, b], [a + b]
+                    if k % 2:
+                        first, second = second, first
+                    yield "MultiLineString", first
+                    yield "MultiLineString", second
+        for j, c in enumerate(polygon_catalogue(T, Fq, tier != "quick")):
+            if len(c) == 2:  # shell with one hole
+                first, second = [c], [[c[0]], [c[1]]]
+                if j % 2:
+                    first, second = second, first
+                yield "MultiPolygon", first
+                yield "MultiPolygon", second
     else:
         raise ValueError(fam)
 
@@ -305,7 +328,7 @@ def blocks(tier):
     total = sum(counts[f] * WEIGHT[f] for f in FAMILIES)
     out = []
     for fam in FAMILIES:
-        parts = max(1, min(48, round(112 * counts[fam] * WEIGHT[fam] / total)))
+        parts = 1 if fam == "regroup" else max(1, min(48, round(112 * counts[fam] * WEIGHT[fam] / total)))
         for i in range(parts):
             n = len(range(i, counts[fam], parts))
             out.append({"fam": fam, "tier": tier, "part": i, "of": parts, "n": n})
